@@ -303,3 +303,174 @@ impl Out {
 // ---- added for C14 (derive macro corpus): both `bfieldcodec_derive` versions expand to paths starting with
 // `crate::twenty_first::…`; `main.rs` glob-imports this module, which puts the name into the crate root.
 pub use ::twenty_first;
+
+// ---- added for the large-count MMR ops of C12 / C05 / C11 ------------------------------------------------------
+// (a) `fmt_arg`: re-serialise a parsed argument (to hand an op line on to a child process);
+// (b) `run_guarded`: run ONE op line in a child `tfh run` under a watchdog (wall-clock timeout, address-space and
+//     CPU-time limits set with setrlimit between fork and exec).  A mutated implementation that loops forever or
+//     allocates without bound is thereby reported as `timeout` / `abort` instead of hanging the whole check.
+//     After `GUARD_MAX_TRIPS` trips within one process the remaining guarded ops are not started any more
+//     (`Guarded::Tripped`), so that a run on a broken tree ends within a bounded time.
+pub fn fmt_arg(a: &Arg) -> String {
+    match a {
+        Arg::Nat(n) => n.to_string(),
+        Arg::Neg(n) => format!("-{}", n),
+        Arg::Sym(s) => s.clone(),
+        Arg::List(v) => format!("[{}]", v.iter().map(fmt_arg).collect::<Vec<_>>().join(",")),
+        Arg::Tup(v) => format!("({})", v.iter().map(fmt_arg).collect::<Vec<_>>().join(";")),
+    }
+}
+pub fn fmt_line(fam: &str, op: &str, args: &[Arg]) -> String {
+    let mut s = format!("{} {}", fam, op);
+    for a in args {
+        s.push(' ');
+        s.push_str(&fmt_arg(a));
+    }
+    s
+}
+
+pub const GUARD_ENV: &str = "TFH_GUARDED_CHILD";
+pub const GUARD_MAX_TRIPS: u32 = 3;
+pub const GUARD_TIMEOUT_MS: u64 = 10_000;
+pub const GUARD_AS_BYTES: u64 = 3 << 30;
+static GUARD_TRIPS: std::sync::atomic::AtomicU32 = std::sync::atomic::AtomicU32::new(0);
+static GUARD_SEQ: std::sync::atomic::AtomicU32 = std::sync::atomic::AtomicU32::new(0);
+
+/// true in the child started by `run_guarded` (the op is then evaluated in-process)
+pub fn in_guarded_child() -> bool {
+    std::env::var_os(GUARD_ENV).is_some()
+}
+
+pub enum Guarded {
+    /// first reply line of the child (with its `\tORACLE-FAIL:` part, if any) and the child's class counters
+    Reply(String, BTreeMap<String, u64>),
+    /// no reply within the wall-clock limit; the child was killed
+    Timeout(u64),
+    /// the child died without a reply (signal / allocation failure under the address-space limit / exit code)
+    Abort(String),
+    /// not started: the watchdog already tripped `GUARD_MAX_TRIPS` times in this process
+    Tripped,
+    /// the child could not be started at all (harness problem, not an observation about the implementation)
+    SpawnError(String),
+}
+
+#[repr(C)]
+struct RLimit64 {
+    cur: u64,
+    max: u64,
+}
+extern "C" {
+    fn setrlimit(resource: i32, rlim: *const RLimit64) -> i32;
+}
+const RLIMIT_CPU: i32 = 0;
+const RLIMIT_AS: i32 = 9;
+
+pub fn run_guarded(line: &str) -> Guarded {
+    use std::io::{Read, Write};
+    use std::os::unix::process::{CommandExt, ExitStatusExt};
+    use std::process::{Command, Stdio};
+    use std::sync::atomic::Ordering;
+    if GUARD_TRIPS.load(Ordering::SeqCst) >= GUARD_MAX_TRIPS {
+        return Guarded::Tripped;
+    }
+    let timeout_ms: u64 = std::env::var("TFH_GUARD_TIMEOUT_MS").ok().and_then(|s| s.parse().ok()).unwrap_or(GUARD_TIMEOUT_MS);
+    let exe = match std::env::current_exe() {
+        Ok(e) => e,
+        Err(e) => return Guarded::SpawnError(e.to_string()),
+    };
+    let stats_path = std::env::temp_dir().join(format!("tfh-guard-{}-{}.json", std::process::id(), GUARD_SEQ.fetch_add(1, Ordering::SeqCst)));
+    let mut cmd = Command::new(exe);
+    cmd.arg("run").arg("--stats").arg(&stats_path).env(GUARD_ENV, "1").stdin(Stdio::piped()).stdout(Stdio::piped()).stderr(Stdio::null());
+    let cpu_s = timeout_ms / 1000 + 2;
+    // SAFETY: only the async-signal-safe `setrlimit` is called between fork and exec
+    unsafe {
+        cmd.pre_exec(move || {
+            let a = RLimit64 { cur: GUARD_AS_BYTES, max: GUARD_AS_BYTES };
+            let c = RLimit64 { cur: cpu_s, max: cpu_s + 1 };
+            if setrlimit(RLIMIT_AS, &a) != 0 || setrlimit(RLIMIT_CPU, &c) != 0 {
+                return Err(std::io::Error::last_os_error());
+            }
+            Ok(())
+        });
+    }
+    let mut child = match cmd.spawn() {
+        Ok(c) => c,
+        Err(e) => return Guarded::SpawnError(e.to_string()),
+    };
+    if let Some(mut stdin) = child.stdin.take() {
+        let _ = stdin.write_all(line.as_bytes());
+        let _ = stdin.write_all(b"\n");
+    }
+    let mut stdout = child.stdout.take().unwrap();
+    let reader = std::thread::spawn(move || {
+        let mut s = String::new();
+        let _ = stdout.read_to_string(&mut s);
+        s
+    });
+    let t0 = std::time::Instant::now();
+    let mut sleep_us = 200u64;
+    let status = loop {
+        match child.try_wait() {
+            Ok(Some(s)) => break Some(s),
+            Ok(None) => {
+                if t0.elapsed().as_millis() as u64 > timeout_ms {
+                    let _ = child.kill();
+                    let _ = child.wait();
+                    break None;
+                }
+                std::thread::sleep(std::time::Duration::from_micros(sleep_us));
+                sleep_us = (sleep_us * 2).min(20_000);
+            }
+            Err(e) => return Guarded::SpawnError(e.to_string()),
+        }
+    };
+    let text = reader.join().unwrap_or_default();
+    let counters: BTreeMap<String, u64> = std::fs::read_to_string(&stats_path).ok().and_then(|s| serde_json::from_str(&s).ok()).unwrap_or_default();
+    let _ = std::fs::remove_file(&stats_path);
+    let first = text.lines().next().unwrap_or("").to_string();
+    match status {
+        None => {
+            GUARD_TRIPS.fetch_add(1, Ordering::SeqCst);
+            Guarded::Timeout(timeout_ms)
+        }
+        Some(s) if s.success() && !first.is_empty() => Guarded::Reply(first, counters),
+        Some(s) => {
+            GUARD_TRIPS.fetch_add(1, Ordering::SeqCst);
+            Guarded::Abort(match s.signal() {
+                Some(sig) => format!("killed by signal {}", sig),
+                None => format!("exit status {:?}, no reply", s.code()),
+            })
+        }
+    }
+}
+
+/// the standard use: evaluate the op in a watchdog child; a reply is passed through (class counters merged),
+/// anything else becomes an ORACLE-FAIL "does not terminate" on this op line
+pub fn guarded_out(fam: &str, op: &str, args: &[Arg], st: &mut Stats, what: &str) -> Out {
+    match run_guarded(&fmt_line(fam, op, args)) {
+        Guarded::Reply(r, counters) => {
+            for (k, v) in counters {
+                if !k.starts_with("op:") {
+                    *st.counters.entry(k).or_insert(0) += v;
+                }
+            }
+            match r.split_once("\tORACLE-FAIL:") {
+                Some((reply, o)) => Out::ok(reply).with_oracle(false, o),
+                None => Out::ok(r),
+            }
+        }
+        Guarded::Timeout(ms) => {
+            st.hit("watchdog:TIMEOUT");
+            Out::ok("timeout").with_oracle(false, format!("does not terminate: {} gave no result within {} ms in a watchdog child process", what, ms))
+        }
+        Guarded::Abort(why) => {
+            st.hit("watchdog:ABORT");
+            Out::ok("abort").with_oracle(false, format!("does not terminate: {} exhausted the {} MiB address-space / CPU-time limit of the watchdog child process ({})", what, GUARD_AS_BYTES >> 20, why))
+        }
+        Guarded::Tripped => {
+            st.hit("watchdog:NOT-RUN");
+            Out::ok("not-run").with_oracle(false, format!("not evaluated: the watchdog already stopped {} earlier ops of this run ({})", GUARD_MAX_TRIPS, what))
+        }
+        Guarded::SpawnError(e) => Out::ok(format!("child-error:{}", e)).with_oracle(false, "could not run the watchdog child process"),
+    }
+}
